@@ -38,7 +38,7 @@ fn published(f: &PriceFeed) -> (u64, i64) {
 //@ prop=C25 tier=quick kind=hold
 //@ enc=PriceFeed::update, PriceFeed::price, PriceFeedPrice::{ts, price, min_price, max_price}, i64::saturating_add_unsigned
 //@ bound=none on values: every feed image with a well-formed stored price (all i64 timestamps, u64 slots, u128 prices), every 64-byte new price image, every clock (i64 now, u64 slot), every u64 max_future_excess, both modes; one step (inductive)
-//@ stubs=Clock::get returns the arbitrary clock drawn by the harness (stubs::set_clock); the head of the account (bump, provider, keys) and the reserved tail are zero (update does not read them); format!, sol_log, CoreError::name, and Display for CoreError/u128/u64/i64 have empty bodies (error texts are not the subject)
+//@ stubs=Clock::get returns the arbitrary clock drawn by the harness (stubs::set_clock); the head of the account (bump, provider, keys) and the reserved tail are zero (update does not read them); format!, sol_log, CoreError::name, and Display for CoreError/u128/u64/i64 and the integer to_string fast paths (u128::_fmt, u64::_fmt) have empty bodies (error texts are not the subject)
 #[kani::proof]
 #[kani::stub(<anchor_lang::prelude::Clock as anchor_lang::prelude::SolanaSysvar>::get, crate::stubs::clock_get)]
 #[kani::stub(alloc::fmt::format, crate::stubs::fmt_format)]
@@ -48,6 +48,8 @@ fn published(f: &PriceFeed) -> (u64, i64) {
 #[kani::stub(<u64 as std::fmt::Display>::fmt, crate::stubs::fmt_u64)]
 #[kani::stub(<i64 as std::fmt::Display>::fmt, crate::stubs::fmt_i64)]
 #[kani::stub(anchor_lang::solana_program::log::sol_log, crate::stubs::sol_log)]
+#[kani::stub(u128::_fmt, crate::stubs::u128_fmt)]
+#[kani::stub(u64::_fmt, crate::stubs::u64_fmt)]
 fn c25_update_step() {
     // pre-state: arbitrary (slot, published_at, price); everything else zero
     let mut img = [0u8; N];
